@@ -20,7 +20,7 @@ ArrPool   == <<"a0", "a1", "a2", "a3">>
 KindDecl(kind) ==
     CASE kind = "string"  -> Decl("string", <<>>, NoBound, NoBound)
       [] kind = "boolean" -> Decl("boolean", <<>>, NoBound, NoBound)
-      [] kind = "integer" -> Decl("integer", <<>>, 0, 20)
+      [] kind = "integer" -> Decl("integer", <<>>, 1, 10)     \* the pool 1..10 touches both bounds
       [] kind = "combo"   -> Decl("combo", ComboPool, NoBound, NoBound)
       [] kind = "array"   -> Decl("array", ArrPool, NoBound, NoBound)
       [] kind = "feature" -> Decl("feature", <<>>, NoBound, NoBound)
@@ -194,7 +194,8 @@ ModuleCases(u) == { ModuleCase(S, U, W) : S \in SUBSET {1, 3, 4}, U \in SUBSET {
 InvPool(kind) ==
     CASE kind = "string"  -> << <<RInt(5), TRUE>>, <<RBool(1), TRUE>>, <<RList(<<"v1">>), TRUE>> >>
       [] kind = "boolean" -> << <<RStr("maybe"), FALSE>>, <<RInt(1), TRUE>>, <<RIntT(1), FALSE>> >>
-      [] kind = "integer" -> << <<RIntT(21), FALSE>>, <<RIntT(-1), FALSE>>, <<RInt(21), TRUE>>, <<RStr("abc"), FALSE>>, <<RBool(1), TRUE>> >>
+      [] kind = "integer" -> << <<RIntT(11), FALSE>>, <<RIntT(0), FALSE>>, <<RInt(11), TRUE>>, <<RInt(0), TRUE>>, <<RIntT(-7), FALSE>>,
+                               <<RStr("abc"), FALSE>>, <<RBool(1), TRUE>> >>
       [] kind = "combo"   -> << <<RStr("zz"), FALSE>>, <<RInt(3), TRUE>>, <<RBool(0), TRUE>> >>
       [] kind = "array"   -> << <<RCsv(<<"a0", "zz">>), FALSE>>, <<RList(<<"zz">>), TRUE>>, <<RBrk(<<"a1", "zz">>), FALSE>>, <<RInt(2), TRUE>> >>
       [] kind = "feature" -> << <<RStr("maybe"), FALSE>>, <<RStr("true"), FALSE>>, <<RBool(1), TRUE>> >>
